@@ -119,3 +119,23 @@ def run(ctx):
                        "the planner recurses into the nested query of Clause::%s but the write classifier does not" % name, cb.file)
         else:
             ctx.oblige(True, "C34.1", "Clause::%s" % name, "")
+
+    # ---- clause 2: every value the C API hands out was reified -------------------------------------------------------
+    # Rows leave the executor with raw graph references (NodeId, EdgeKey, paths), possibly nested in lists and maps.  The Rust API users
+    # call Row::reify / Value::reify, which walks every nesting level.  The C API must do the same for every column value on every path:
+    # a "skip scalars" shortcut that forgets one container kind returns `{"type":"node_id"}` where the Rust API returns the full node.
+    from .. import paths
+    from ..facts import op_local
+    ctx.rule("C34.2", "in the C API's read path every (key, value) pushed into an outgoing row is dominated by the Ok arm of Value::reify / Row::reify (no per-kind shortcut)")
+    rb = ctx.body("nervusdb_capi::execute_read_rows")
+    reifies = [c for c in rb.calls() if c.name.endswith("core_types::Value::reify") or c.name.endswith("core_types::Row::reify")]
+    oks = [o for o in (paths.ok_arm(rb, c) for c in reifies) if o is not None]
+    pushes = [c for c in rb.calls() if c.name.endswith("::push") and len(c.args) > 1 and "core_types::Value" in rb.local_ty(op_local(c.args[1]) if op_local(c.args[1]) is not None else 0) and "Row" not in rb.local_ty(op_local(c.args[1]) if op_local(c.args[1]) is not None else 0).split("(")[0]]
+    ctx.floor("C34.2", "reify calls in execute_read_rows", len(reifies), 1)
+    ctx.floor("C34.2", "value pushes in execute_read_rows", len(pushes), 1)
+    for k, p in enumerate(pushes):
+        ok = any(rb.dominates(o, p.bb) for o in oks)
+        ctx.instance("C34.2", "execute_read_rows: value push #%d dominated by Ok(reify)=%s" % (k, ok))
+        ctx.oblige(ok, "C34.2", "execute_read_rows:push#%d-unreified" % k,
+                   "a column value can reach the outgoing row without passing Value::reify: nested graph references (e.g. a node inside a map) are returned as raw "
+                   "ids by the C API while the Rust API returns the materialised entity", p.loc())
